@@ -25,6 +25,18 @@
 (*  PT   {i, dir, c, prev, reused, sent, len, eq, eof, hung, needEof}   pooled-connection reuse    *)
 (*  FE   {who, sent, len, eq, eof, hung, needEof}   what the endpoint behind the receiving     *)
 (*        forwarder got                                                                        *)
+(*  bidi (schedules of CrossFrameForward.tla on the real runBidirectionalForward, one forwarder *)
+(*  per tunnel between a local endpoint and a real FrameStream, peer = the other node's stream):*)
+(*  BS   {t}                 the forwarder of tunnel t was started                              *)
+(*  BR   {t, d, k, n}        the source of direction d (up: local endpoint, down: the peer's    *)
+(*        Write on the cross-node stream) produced its k-th chunk, n bytes                      *)
+(*  BW   {t, d, off, n, eq, stable, by}   a Write at the sink of direction d returned: the n    *)
+(*        bytes of its slice as the sink sees them on return are (eq) the direction's own bytes *)
+(*        off..off+n; stable = the slice did not change while the Write was in progress;        *)
+(*        by = whose bytes it holds otherwise (own | otherdir | othertunnel | mixed)            *)
+(*  BD   {t, d, sent, len, eq, eof, hung}   end of the run: what arrived at the far end of      *)
+(*        direction d (up: FrameStream.Read on the peer node; down: the local endpoint), whether *)
+(*        end-of-stream followed, whether the forwarder failed to return                        *)
 (* Write results are logged before the deliveries of a trace (the writer's calls are a script; *)
 (* the predicate does not depend on the real-time interleaving of writer and reader).          *)
 EXTENDS VLib
@@ -38,11 +50,13 @@ VARIABLES cfg,        \* the Cfg record of the current trace (or Nil)
           delivered,  \* own bytes delivered so far
           collEnd,    \* an EOF/Close frame of a tunnel with a colliding 16-byte id was on the connection
           nulEnd,     \* an EOF/Close frame of a tunnel whose id agrees with ours up to a NUL byte was on it
-          ended       \* REnd seen
-vars == <<l, viol, cfg, written, closed, delivered, collEnd, nulEnd, ended>>
+          ended,      \* REnd seen
+          bprod       \* bidi: bytes produced so far per direction ("t:d" -> n)
+vars == <<l, viol, cfg, written, closed, delivered, collEnd, nulEnd, ended, bprod>>
 
 Nil == [kind |-> "none"]
 Init == l = 1 /\ viol = {} /\ cfg = Nil /\ written = 0 /\ closed = "" /\ delivered = 0 /\ collEnd = FALSE /\ nulEnd = FALSE /\ ended = FALSE
+        /\ bprod = [x \in {} |-> 0]
 
 F(r, f, d) == IF f \in DOMAIN r THEN r[f] ELSE d
 Idk == F(cfg, "idk", "?")
@@ -50,10 +64,10 @@ Rsz == F(cfg, "rsz", "?")
 \* behaviours with other tunnels writing concurrently on the connection are a class of their own
 ParSfx == IF F(cfg, "par", 0) > 0 THEN ":concurrent" ELSE ""
 Add(c, d) == viol' = viol \cup {V(c, d)}
-Keep == UNCHANGED <<cfg, written, closed, delivered, collEnd, nulEnd, ended>>
+Keep == UNCHANGED <<cfg, written, closed, delivered, collEnd, nulEnd, ended, bprod>>
 
 TrCfg == /\ Is("Cfg") /\ cfg' = Ev /\ l' = l + 1
-         /\ UNCHANGED <<viol, written, closed, delivered, collEnd, nulEnd, ended>>
+         /\ UNCHANGED <<viol, written, closed, delivered, collEnd, nulEnd, ended, bprod>>
 
 \* ---- stream --------------------------------------------------------------------------------
 TrW == /\ Is("W") /\ l' = l + 1
@@ -70,12 +84,12 @@ TrW == /\ Is("W") /\ l' = l + 1
           ELSE /\ written' = written
                /\ IF Ev.err THEN Add("Complete", "close-failed:" \o Ev.op) /\ closed' = closed
                   ELSE viol' = viol /\ closed' = (IF closed = "" THEN Ev.op ELSE closed)
-       /\ UNCHANGED <<cfg, delivered, collEnd, nulEnd, ended>>
+       /\ UNCHANGED <<cfg, delivered, collEnd, nulEnd, ended, bprod>>
 
 TrInj == /\ Is("Inj") /\ l' = l + 1
          /\ collEnd' = (collEnd \/ (Ev.idrel = "same16" /\ Ev.ty # "data"))
          /\ nulEnd' = (nulEnd \/ (Ev.idrel = "diffnul" /\ Ev.ty # "data"))
-         /\ UNCHANGED <<viol, cfg, written, closed, delivered, ended>>
+         /\ UNCHANGED <<viol, cfg, written, closed, delivered, ended, bprod>>
 
 ForeignDetail(e) == IF e.src = "junk" THEN "junk" \o ParSfx
                     ELSE IF e.k \in {"fds", "fes"} THEN "id16:" \o Idk \o ":data"
@@ -92,7 +106,7 @@ TrD == /\ Is("D") /\ l' = l + 1
                   ELSE viol' = viol
           ELSE /\ delivered' = delivered
                /\ Add("NoForeign", ForeignDetail(Ev))
-       /\ UNCHANGED <<cfg, written, closed, collEnd, nulEnd, ended>>
+       /\ UNCHANGED <<cfg, written, closed, collEnd, nulEnd, ended, bprod>>
 
 EndDetail == "rsz=" \o Rsz \o ":end=" \o closed \o ParSfx
 TrREnd == /\ Is("REnd") /\ l' = l + 1 /\ ended' = TRUE
@@ -104,7 +118,7 @@ TrREnd == /\ Is("REnd") /\ l' = l + 1 /\ ended' = TRUE
                   \cup (IF Ev.how = "err" THEN {V("Complete", "read-error:" \o EndDetail)} ELSE {})
                   \cup (IF Ev.after = "data" THEN {V("Complete", "data-after-eof")} ELSE {})
              IN viol' = viol \cup vs
-          /\ UNCHANGED <<cfg, written, closed, delivered, collEnd, nulEnd>>
+          /\ UNCHANGED <<cfg, written, closed, delivered, collEnd, nulEnd, bprod>>
 
 \* ---- decoder -------------------------------------------------------------------------------
 Cls(c) == c.hdr \o ":" \o c.ty \o ":" \o c.decl \o ":" \o c.avail
@@ -148,6 +162,33 @@ TrFE == /\ Is("FE") /\ l' = l + 1
         /\ viol' = viol \cup PipeViol(Ev, Ev.who, Ev.needEof)
         /\ Keep
 
+\* ---- bidirectional forwarder under a schedule: both directions of a tunnel (and other tunnels) at once ----
+\* "bytes ... arrive at the peer unchanged, in order and complete ... followed by end-of-stream", per
+\* direction: the sink of a direction receives that direction's bytes and nothing else, whatever the
+\* other direction / other tunnels do meanwhile and however long its Write takes.
+BKey(e) == ToString(e.t) \o ":" \o e.d
+BProd(k) == IF k \in DOMAIN bprod THEN bprod[k] ELSE 0
+BidiDetail(e) == "bidi:" \o e.d \o ":lk=" \o F(cfg, "lk", "?") \o ":cnt=" \o F(cfg, "cnt", "?")
+                 \o ":nt=" \o ToString(F(cfg, "nt", 0)) \o ":" \o F(cfg, "mode", "?")
+TrBS == /\ Is("BS") /\ l' = l + 1 /\ UNCHANGED viol /\ Keep
+TrBR == /\ Is("BR") /\ l' = l + 1
+        /\ bprod' = (BKey(Ev) :> (BProd(BKey(Ev)) + Ev.n)) @@ bprod
+        /\ UNCHANGED <<viol, cfg, written, closed, delivered, collEnd, nulEnd, ended>>
+TrBW == /\ Is("BW") /\ l' = l + 1
+        /\ LET vs == (IF ~Ev.eq THEN {V("InOrder", "changed:" \o BidiDetail(Ev) \o ":by=" \o Ev.by
+                                                     \o (IF Ev.stable THEN ":before-write" ELSE ":during-write"))} ELSE {})
+                 \cup (IF Ev.eq /\ Ev.off + Ev.n > BProd(BKey(Ev)) THEN {V("InOrder", "beyond-written:" \o BidiDetail(Ev))} ELSE {})
+           IN viol' = viol \cup vs
+        /\ Keep
+TrBD == /\ Is("BD") /\ l' = l + 1
+        /\ LET d == BidiDetail(Ev)
+               vs == (IF ~Ev.eq \/ Ev.len > Ev.sent THEN {V("InOrder", "changed:" \o d \o ":arrived")} ELSE {})
+                \cup (IF Ev.eq /\ Ev.len < Ev.sent THEN {V("Complete", "short:" \o d)} ELSE {})
+                \cup (IF Ev.eq /\ Ev.len = Ev.sent /\ ~Ev.eof THEN {V("Complete", "no-eof:" \o d)} ELSE {})
+                \cup (IF Ev.hung THEN {V("Complete", "hung:" \o d)} ELSE {})
+           IN viol' = viol \cup vs
+        /\ Keep
+
 \* ---- listener path: TargetReady frame, then raw tunnel bytes on the same connection ------------
 \* LD = what the source side of the bridge received of the bytes the target node wrote right
 \* behind the TargetReady frame (handleConnection -> handleTargetReady -> runBridgeForward)
@@ -166,7 +207,9 @@ TrPT == /\ Is("PT") /\ l' = l + 1
 
 TrEnd == /\ Is("End") /\ EmitVerdict /\ l' = l + 1
          /\ viol' = {} /\ cfg' = Nil /\ written' = 0 /\ closed' = "" /\ delivered' = 0 /\ collEnd' = FALSE /\ nulEnd' = FALSE /\ ended' = FALSE
+         /\ bprod' = [x \in {} |-> 0]
 
-Next == TrCfg \/ TrW \/ TrInj \/ TrD \/ TrREnd \/ TrDec \/ TrRt \/ TrFD \/ TrFE \/ TrLD \/ TrPT \/ TrEnd
+Next == TrCfg \/ TrW \/ TrInj \/ TrD \/ TrREnd \/ TrDec \/ TrRt \/ TrFD \/ TrFE \/ TrLD \/ TrPT
+        \/ TrBS \/ TrBR \/ TrBW \/ TrBD \/ TrEnd
 Spec == Init /\ [][Next]_vars
 =============================================================================
